@@ -62,7 +62,7 @@ def run(chk: framework.Check):
     n_worlds = 400 if chk.tier == "quick" else 4000
     corr_fail = []
     for G, S, w in streams.worlds(chk, drv, n_worlds, unions=True, nt=True, coercible=True, enum_lits=True,
-                                   map_targets=True):
+                                   map_targets=True, class_features=True):
         # "creating the hook for T succeeds in one mode exactly when in the other": every class of the world, not only
         # the ones the type stream happens to draw (hook creation is where template-specific generation code runs)
         for ci, c in enumerate(w["classes"]):
@@ -96,6 +96,7 @@ def run(chk: framework.Check):
                     continue
                 plist = list(streams.payloads(chk, G, S, w, u[1]))
                 plist += initfalse_payloads(chk, G, S, w, ty, u[1])
+                plist += list(streams.validator_payloads(chk, G, S, w, ty, u[1]))
                 for kind, p, pv in plist:
                     rd = S.impl_st(cd, ty, p, payload=pv)
                     rf = S.impl_st(cf, ty, p, payload=pv)
@@ -146,6 +147,8 @@ def run(chk: framework.Check):
     ext.run_c04(chk, 150 if chk.tier == "quick" else 1500)
     # implementation-only: hooks built with generator options (use_alias, include_init_false, override(omit=False / rename))
     ext.run_genopts(chk, 300 if chk.tier == "quick" else 3000, "C04")
+    # implementation-only: @define(init=False) classes with a hand-written __init__ (finding region noted, see the stream)
+    ext.run_custom_init(chk, 40 if chk.tier == "quick" else 400)
     # implementation-only: Literal[...] over members of mix-in enums, position-wise equal literals in one process
     ext.run_enum_literals(chk, 25 if chk.tier == "quick" else 250, "C04")
     drv.close()
